@@ -115,14 +115,23 @@ def run_registry(chk, stats, quick):
                 with open(os.path.join(tree, nm), "wb") as fh:
                     fh.write(content)
             os.symlink("nowhere", os.path.join(tree, "dangling"))
+            # a second, plain tree: on the sample tree many tags stop the run at the first file they cannot read, so whatever
+            # they do to the files they CAN read would go unseen; here every file is an ordinary, freshly written one
+            easy = os.path.join(root, "easy")
+            os.makedirs(os.path.join(easy, "sub"))
+            for nm, content in (("plain.txt", b"plain text\n"), ("sub/data.bin", bytes(range(256)) * 20), ("empty", b""), ("x y.md", b"# t\n")):
+                with open(os.path.join(easy, nm), "wb") as fh:
+                    fh.write(content)
             before = strict(root)
             positions = ["name", "context", "filter", "sort", "path", "directory"]
             for q, text, ctx in tags:
                 todo = ["name"] if quick else positions
                 if quick and rng.random() < 0.25:
                     todo.append(rng.choice(positions[1:]))
-                for pos in todo:
-                    if pos == "name":
+                for pos in todo + ["easy"]:
+                    if pos == "easy":
+                        argv = ["-dr", "-r", "%Base()_" + text + "%Ext()", easy]
+                    elif pos == "name":
                         argv = ["-dr", "-r", "-ih", "%Base()_" + text + "%Ext()", tree]
                     elif pos == "context":
                         argv = ["-dr", "-r", "%Upper{" + text + "}%Ext()", tree]
